@@ -288,3 +288,9 @@ pub mod prelude {
 }
 
 pub mod mqtt;
+
+#[cfg(all(feature = "verif-hooks", kani))]
+#[allow(dead_code, unused)]
+pub(crate) mod verif_harness {
+    include!(concat!(env!("VERIF_HARNESS_DIR"), "/lib_h.rs"));
+}
